@@ -901,6 +901,11 @@ func TestC10DeadlineExtended(t *testing.T) {
 		if err := sv.Session.SetCloseDeadline(t0.Add(d2)); err != nil {
 			t.Fatalf("harness: SetCloseDeadline: %v", err)
 		}
+		// (the second call replaces the first deadline only if it was made before
+		// that deadline passed: on a loaded machine this goroutine may have been
+		// kept waiting for longer than the few milliseconds between them, and a
+		// Serve that ended at the first deadline is then right)
+		late := !time.Now().Before(t0.Add(d1 - 500*time.Microsecond))
 		// the peer talks on, after the first deadline and before the second
 		for _, at := range []time.Duration{d1 + 6*time.Millisecond, d1 + 16*time.Millisecond} {
 			if w := time.Until(t0.Add(at)); w > 0 {
@@ -920,7 +925,10 @@ func TestC10DeadlineExtended(t *testing.T) {
 		if sv.Err() == nil {
 			ev.Failf(t, "iteration %d: Serve returned nil after %v although the peer never closed its stream", i, el)
 		}
-		if el < d2-time.Millisecond {
+		if late {
+			ev.Class("close-deadline-extended-too-late-to-judge")
+		}
+		if el < d2-time.Millisecond && !late {
 			ev.Failf(t, "iteration %d: SetCloseDeadline(+%v) then SetCloseDeadline(+%v), the peer sent stanzas after the first deadline: Serve returned %v after only %v, before the close deadline in force (+%v) had passed", i, d1, d2, sv.Err(), el, d2)
 		}
 		sv.Conn.Close()
